@@ -148,6 +148,9 @@ func (h *half) write(p []byte) (int, error) {
 	if h.failWrAt >= 0 && h.nwritten >= h.failWrAt {
 		return 0, h.writeErr
 	}
+	if h.honor() && !h.wdeadline.IsZero() && !time.Now().Before(h.wdeadline) {
+		return 0, errTimeout // a write attempted after the deadline set on the connection
+	}
 	if len(p) == 0 {
 		return 0, nil
 	}
